@@ -9,12 +9,24 @@ T=$(mktemp -d /tmp/verif-det-XXXXXX); trap 'rm -rf "$T"' EXIT
 export GORACE="halt_on_error=0 atexit_sleep_ms=0 exitcode=0" GOMAXPROCS=1 GODEBUG=asyncpreemptoff=1
 grep -n "range .*map\|\.Range(" /verif/sim/*.go /verif/simrt/*.go /verif/worlds/*/*.go /verif/spec/*.go | grep -v "// det-ok" > "$T/maps.txt"
 if [ -s "$T/maps.txt" ]; then echo "note: map iterations in harness code (each must be order-independent or sorted):"; cat "$T/maps.txt"; fi
+# a worker ends early after a run that left goroutines of the library behind
+# (they would wake up in a later run): the remaining seeds get a new process
+runpart() {
+  local world=$1 from=$2 cnt=$3 out=$4 err=$5 n
+  : > "$out"; : > "$err"
+  while [ "$cnt" -gt 0 ]; do
+    "$W" -world $world -scale ${VERIF_DET_SCALE:-1} -from $from -count $cnt 2>>"$err" | grep -v '"summary":true' > "$out.tmp"
+    n=$(wc -l < "$out.tmp"); cat "$out.tmp" >> "$out"; rm -f "$out.tmp"
+    [ "$n" -eq 0 ] && break
+    from=$((from+n)); cnt=$((cnt-n))
+  done
+}
 rc=0
-for world in reg iso join radio plan adr; do
+for world in ${VERIF_DET_WORLDS:-reg iso join radio plan adr}; do
   run() { # parts label
     local parts=$1 label=$2 per=$((K/$1))
     for ((p=0;p<parts;p++)); do
-      ( "$W" -world $world -scale ${VERIF_DET_SCALE:-1} -from $((BASE+p*per)) -count $per 2>"$T/$world.$label.$p.err" | grep -v '"summary":true' > "$T/$world.$label.$p.out" ) &
+      runpart $world $((BASE+p*per)) $per "$T/$world.$label.$p.out" "$T/$world.$label.$p.err" &
       if (( (p+1) % 16 == 0 )); then wait; fi
     done; wait
     cat $(for ((p=0;p<parts;p++)); do echo "$T/$world.$label.$p.out"; done) | python3 -c "
